@@ -431,6 +431,35 @@ type c19Inst struct {
 func c19NewHandler(c *vk.Case, conf *config.Root) (*web.Handler, string) {
 	h := web.New(nil, conf, nil)
 	pw := string(conf.Dashboard.RootPassword)
+	if pw == "" && !conf.Dashboard.DisableAuthn {
+		// no password configured: the very first request this process sees on /login is a POST with an empty (or no)
+		// password; whatever the process does lazily about its temporary password, that is a wrong password
+		prot := h.Authn(func(w http.ResponseWriter, r *http.Request) { w.Header().Set("X-Sentinel", "ran") })
+		for _, body := range []string{"password=", "user=root"} {
+			rec := httptest.NewRecorder()
+			req := httptest.NewRequest("POST", "/login", strings.NewReader(body))
+			req.Header.Set("Content-Type", "application/x-www-form-urlencoded")
+			req.RemoteAddr = "203.0.113.9:4001"
+			h.Login(rec, req)
+			c.Obs("first_request_empty_password_probes", 1)
+			cks := (&http.Response{Header: rec.Header()}).Cookies()
+			if len(cks) == 0 {
+				continue
+			}
+			rec2 := httptest.NewRecorder()
+			req2 := httptest.NewRequest("GET", "/add-source", nil)
+			req2.RemoteAddr = "8.8.8.8:40002"
+			for _, ck := range cks {
+				req2.AddCookie(ck)
+			}
+			prot.ServeHTTP(rec2, req2)
+			if rec2.Header().Get("X-Sentinel") == "ran" {
+				c.Violate("session-issued-for-wrong-password:empty-as-first-request", map[string]any{"body": body, "status": rec.Code, "set_cookie": rec.Header()["Set-Cookie"]},
+					"no password configured: POST /login with %q as the first request of the process answered %d with a session a public client can use", body, rec.Code)
+				break
+			}
+		}
+	}
 	if pw == "" {
 		c19Cap.mu.Lock()
 		c19Cap.pw = ""
@@ -629,6 +658,24 @@ func (in *c19Inst) judge(q c19Req, out c19Out, remoteClass, cookieClass string, 
 	}
 	want, clause := c19Expect(in.disable, in.lbAuthn, loopback, session)
 	detail := map[string]any{"request": q.short(), "config": in.confDetail(), "remote_is_loopback": loopback, "carries_session_of_this_instance": session, "cookie_class": cookieClass, "observed": out, "expected_served": want, "clause": clause}
+	if len(out.SetCookie) > 0 && !session && !in.disable {
+		// a request that carried no session of this process left with a cookie: it must not be a session (only a
+		// successful password login issues one). Replayed from a public address it has to be refused.
+		hdr := ""
+		for i, ck := range c19Cookies(out) {
+			if i > 0 {
+				hdr += "; "
+			}
+			hdr += ck.Name + "=" + ck.Value
+		}
+		po := in.do(in.prot, c19Req{Method: "GET", Target: "/add-source", Remote: "8.8.8.8:40001", Cookie: hdr})
+		c.Obs("cookies_from_unauthenticated_requests_replayed", 1)
+		if po.Ran > 0 {
+			c.Violate("session-issued-without-login:remote="+remoteClass, merge(detail, map[string]any{"set_cookie": out.SetCookie}),
+				"%s %s from %q (no session) left with a cookie that a public client can replay to reach the protected handler", q.Method, q.Target, q.Remote)
+			return false
+		}
+	}
 	if want {
 		switch {
 		case out.Ran == 0:
